@@ -741,6 +741,32 @@ def bash_terminates(script, timeout=5):
         return True
 
 
+def finishes_given_time(ctx, script, timeout=150):
+    """the real CLI, alone, with a generous bound (and 8 GiB of address space): does the run end in a status?"""
+    def lim():
+        try:
+            resource.setrlimit(resource.RLIMIT_AS, (8 << 30, 8 << 30))
+            resource.setrlimit(resource.RLIMIT_CPU, (timeout, timeout + 5))
+            resource.setrlimit(resource.RLIMIT_CORE, (0, 0))
+        except Exception:
+            pass
+    work = os.path.join(core.SCRATCH, "c01-cwd")
+    os.makedirs(work, exist_ok=True)
+    try:
+        p = subprocess.Popen([ctx.vbrush, "--norc", "--noprofile", "-c", script], stdin=subprocess.DEVNULL,
+                             stdout=subprocess.DEVNULL, stderr=subprocess.DEVNULL, cwd=work, preexec_fn=lim,
+                             start_new_session=True)
+    except Exception:
+        return False
+    try:
+        p.communicate(timeout=timeout)
+        return p.returncode is not None and 0 <= p.returncode and p.returncode not in (101, 134)
+    except subprocess.TimeoutExpired:
+        return False
+    finally:
+        _killpg(p)
+
+
 def run_vbrush(ctx, scripts, timeout=10, jobs=None):
     """process-level: the real CLI on `-c script`; returns list of ('P',msg,loc)|('T',)|('S',signal)|('R',rc)"""
     jobs = jobs or min(core.NPROC, 8)
@@ -875,6 +901,12 @@ def explore(ctx, rng, scale):
                     st["loop_divergence"] = st.get("loop_divergence", 0) + 1
                     st.setdefault("loop_divergence_samples", []).append(s[:300])
                     continue
+            if r[0] == "T" and not (kid and is_open(kid)) and finishes_given_time(ctx, s):
+                # slow, not hung: the work is proportional to what the script asks for (`printf '%.2147483647d' 1` prints
+                # 2 GiB: 3 s in bash, 10 s in a debug build of brush) and ends in a status
+                st["slow_but_finishing"] = st.get("slow_but_finishing", 0) + 1
+                st.setdefault("slow_but_finishing_samples", []).append(s[:200])
+                continue
             if r[0] == "C" and not (kid and is_open(kid)):
                 # the process died (abort / OOM / exit): confirm through the CLI binary
                 rr = run_vbrush(ctx, [s], timeout=20)[0]
